@@ -2,6 +2,7 @@ package electricpb
 
 import (
 	"context"
+	"slices"
 	"sort"
 
 	"google.golang.org/grpc"
@@ -111,7 +112,8 @@ func (s *ModelServer) ListModes(_ context.Context, request *traits.ListModesRequ
 	pageSize := capPageSize(int(request.GetPageSize()))
 
 	// page over the unfiltered listing: the read mask may leave out the field the page token is made of
-	sortedModes := s.model.Modes()
+	// (a copy of the slice: it is sorted here and its elements are replaced by their filtered clones below)
+	sortedModes := slices.Clone(s.model.Modes())
 	// the collection lists in the order of its own keys, which an id interceptor can make differ from the
 	// order of the field the page token is made of and the search below relies on
 	sort.Slice(sortedModes, func(i, j int) bool {
